@@ -746,12 +746,14 @@ package secretstore
 //@ # import: refused (store unchanged) when either account key exists, when a blob is not an Ed25519 key, or when
 //@ # both blobs hold the same key; on success exactly the two account keys are added with the imported values
 //@ func (*deviceKeystore).restoreAccountKeys
-//@   for C11
+//@   for C11, C20
 //@   requires dkOK(a)
 //@   modifies ksh(a.keystore), ksk(a.keystore)
 //@   ensures [C11.import.refuse.exists] old(ksh(a.keystore))["accountSK"] || old(ksh(a.keystore))["accountProofSK"] ==> ret0 != nil
 //@   ensures [C11.import.refuse.type] (skm_ok(bytes(accountPrivateKeyBytes)) && skm_type(bytes(accountPrivateKeyBytes)) != 1)
 //@        || (skm_ok(bytes(accountProofPrivateKeyBytes)) && skm_type(bytes(accountProofPrivateKeyBytes)) != 1) ==> ret0 != nil
+//@   # a key that is missing from an archive arrives here as an empty slice
+//@   ensures [C20.import.missing] len(accountPrivateKeyBytes) == 0 || len(accountProofPrivateKeyBytes) == 0 ==> ret0 != nil
 //@   ensures [C11.import.refuse.equal] skm_raw(bytes(accountPrivateKeyBytes)) == skm_raw(bytes(accountProofPrivateKeyBytes)) ==> ret0 != nil
 //@   ensures [C11.import.refuse.unchanged] old(ksh(a.keystore))["accountSK"] || old(ksh(a.keystore))["accountProofSK"]
 //@        || skm_raw(bytes(accountPrivateKeyBytes)) == skm_raw(bytes(accountProofPrivateKeyBytes))
@@ -762,8 +764,8 @@ package secretstore
 //@   ensures [C11.ks.monotone] ksMono(a.keystore)
 //@   ensures [C11.ks.inv] ksOK(a.keystore)
 //@   loop 0 invariant forall k Bytes {has(privateKeys, k)} :: has(privateKeys, k) ==> (k == "accountSK" || k == "accountProofSK") && privateKeys[k] != nil && keytype(privateKeys[k]) == 1
-//@   loop 0 invariant has(privateKeys, "accountSK") ==> skv(privateKeys["accountSK"]) == skm_raw(bytes(accountPrivateKeyBytes)) && skm_type(bytes(accountPrivateKeyBytes)) == 1
-//@   loop 0 invariant has(privateKeys, "accountProofSK") ==> skv(privateKeys["accountProofSK"]) == skm_raw(bytes(accountProofPrivateKeyBytes)) && skm_type(bytes(accountProofPrivateKeyBytes)) == 1
+//@   loop 0 invariant has(privateKeys, "accountSK") ==> skv(privateKeys["accountSK"]) == skm_raw(bytes(accountPrivateKeyBytes)) && skm_type(bytes(accountPrivateKeyBytes)) == 1 && skm_ok(bytes(accountPrivateKeyBytes))
+//@   loop 0 invariant has(privateKeys, "accountProofSK") ==> skv(privateKeys["accountProofSK"]) == skm_raw(bytes(accountProofPrivateKeyBytes)) && skm_type(bytes(accountProofPrivateKeyBytes)) == 1 && skm_ok(bytes(accountProofPrivateKeyBytes))
 //@   loop 0 invariant forall k Bytes {visited(rangeof(0), k)} :: visited(rangeof(0), k) ==> has(privateKeys, k)
 //@   loop 0 invariant has(rangeof(0), "accountSK") && has(rangeof(0), "accountProofSK") && rangeof(0) != nil
 //@   loop 0 invariant ksh(a.keystore) == old(ksh(a.keystore)) && ksk(a.keystore) == old(ksk(a.keystore)) && privateKeys != nil
@@ -817,12 +819,13 @@ package secretstore
 //@        && bytes(accountProofPrivateKeyBytes) == skmarshal(1, skv(ksk(s.deviceKeystore.keystore)["accountProofSK"]))
 //@   ensures [C11.ks.monotone] ksMono(s.deviceKeystore.keystore)
 //@ func (*secretStore).ImportAccountKeys
-//@   for C11
+//@   for C11, C20
 //@   requires s != nil && dkOK(s.deviceKeystore)
 //@   modifies ksh(s.deviceKeystore.keystore), ksk(s.deviceKeystore.keystore)
 //@   ensures [C11.api.import.ok] ret0 == nil ==> ksh(s.deviceKeystore.keystore)["accountSK"] && ksh(s.deviceKeystore.keystore)["accountProofSK"]
 //@        && skv(ksk(s.deviceKeystore.keystore)["accountSK"]) == skm_raw(bytes(accountPrivateKeyBytes))
 //@        && skv(ksk(s.deviceKeystore.keystore)["accountProofSK"]) == skm_raw(bytes(accountProofPrivateKeyBytes))
+//@   ensures [C20.api.import.missing] len(accountPrivateKeyBytes) == 0 || len(accountProofPrivateKeyBytes) == 0 ==> ret0 != nil
 //@   ensures [C11.api.import.refuse] old(ksh(s.deviceKeystore.keystore))["accountSK"] || old(ksh(s.deviceKeystore.keystore))["accountProofSK"] ==> ret0 != nil
 //@        && ksh(s.deviceKeystore.keystore) == old(ksh(s.deviceKeystore.keystore)) && ksk(s.deviceKeystore.keystore) == old(ksk(s.deviceKeystore.keystore))
 //@ func (*secretStore).GetOwnMemberDeviceForGroup
